@@ -58,6 +58,7 @@ package server
 //@ func (*BgpServer).stopNeighbor
 //@   claims at-call
 //@   at-call peer.stopFSM() requires called(Store)
+//@   at-call peer.fsm.state.Store( requires arg1 == bgp.BGP_FSM_IDLE
 //@ func (*fsmHandler).established$2
 //@   claims at-call
 //@   at-call bgp.NewBGPNotificationMessage( requires len(arg2) == len(m.Body.(*bgp.BGPNotification).Data) + 2 && arg2[0] == m.Body.(*bgp.BGPNotification).ErrorCode && arg2[1] == m.Body.(*bgp.BGPNotification).ErrorSubcode
